@@ -74,8 +74,8 @@ class ScalarField(DataFieldBase):
 
         if "cartesian" in str(expression):
             # support Cartesian coordinates via a special constant
-            if consts is None:
-                consts = {}
+            # use a copy, so the dictionary supplied by the caller is not modified
+            consts = {} if consts is None else dict(consts)
             if "cartesian" not in consts:
                 coords_cart = grid.point_to_cartesian(grid.cell_coords)
                 consts["cartesian"] = np.moveaxis(coords_cart, -1, 0)
